@@ -17,6 +17,7 @@ import (
 
 	"trpc.group/trpc-go/trpc-mcp-go/internal/httputil"
 	"trpc.group/trpc-go/trpc-mcp-go/internal/sseutil"
+	"trpc.group/trpc-go/trpc-mcp-go/internal/verifhook"
 )
 
 const (
@@ -588,6 +589,7 @@ func (h *httpServerHandler) handleGet(ctx context.Context, w http.ResponseWriter
 	w.Header().Set(httputil.SessionIDHeader, session.GetID())
 	w.WriteHeader(http.StatusOK)
 	flusher.Flush()
+	verifhook.Yield("get:headers-flushed")
 
 	// Create context, for canceling connection
 	connCtx, cancelConn := context.WithCancel(ctx)
@@ -613,6 +615,7 @@ func (h *httpServerHandler) handleGet(ctx context.Context, w http.ResponseWriter
 	}
 	h.getSSEConnections[session.GetID()] = conn
 	h.getSSEConnectionsLock.Unlock()
+	verifhook.Yield("get:registered")
 
 	// Record connection information
 	h.logger.Infof("Established GET SSE connection, session ID: %s", session.GetID())
@@ -624,11 +627,13 @@ func (h *httpServerHandler) handleGet(ctx context.Context, w http.ResponseWriter
 
 	// Wait for connection to close
 	<-connCtx.Done()
+	verifhook.Yield("get:woken")
 
 	// Clean up connection
 	h.getSSEConnectionsLock.Lock()
 	delete(h.getSSEConnections, session.GetID())
 	h.getSSEConnectionsLock.Unlock()
+	verifhook.Yield("get:deleted")
 	h.logger.Infof("GET SSE connection closed, session ID: %s", session.GetID())
 }
 
@@ -641,6 +646,7 @@ func (h *httpServerHandler) sendNotificationToGetSSE(sessionID string, notificat
 	if !ok {
 		return fmt.Errorf("%w: %s", ErrSessionNotFound, sessionID)
 	}
+	verifhook.Yield("send:looked-up")
 
 	conn.writeLock.Lock()
 	defer conn.writeLock.Unlock()
